@@ -110,3 +110,11 @@ Example C41_example_all_done :
   all_done g = true /\ hw g = 1 /\ map (fun c => ctrace (st c)) (conns g) = map seq_calls ex_scripts
   /\ existsb (fun t => negb (Nat.eqb (length t) 0)) (map (fun c => ctrace (st c)) (conns g)) = true.
 Proof. vm_compute. repeat split; reflexivity. Qed.
+
+(* a connection that waits: max_connections = 1, connection 0 is being served, connection 1 has connected and
+   tried to get a slot -- it is Queued with its script untouched, the slot count is exhausted, one is served *)
+Example C41_example_waiting :
+  let g := crun [0;0;1;1;0;1] (cinit_sys (Some 1) ex_scripts) in
+  map (fun c => phase_code (ph c)) (conns g) = [2; 1; 0]%N /\ has_permit (permits g) = false /\ served (conns g) = 1
+  /\ (exists c, nth_error (conns g) 1 = Some c /\ st c = cinit [(ex_stream, SExch true 2 AClose CbRecord); (ex_unary, SUnary CbRecord)]).
+Proof. vm_compute. repeat split; try reflexivity. eexists. split; reflexivity. Qed.
